@@ -829,6 +829,15 @@ func (r *runner) simple(ctx context.Context, s Step, path string, res *StepResul
 			r.srv.AddFault(*s.Fault)
 		}
 		return nil
+	case "meta_refresh":
+		// a second handle of the AT proxy on the same data source: opening it installs a fresh table-meta cache
+		// (what an expiry / refresh / another instance does): the next statement loads its table metadata again
+		d, err := sql.Open(ATDriver, r.dsn["at"])
+		if err != nil {
+			return err
+		}
+		r.dbs[fmt.Sprintf("at#%d", len(r.dbs))] = d
+		return nil
 	case "db_locks":
 		res.Locks = append([]string{}, r.srv.HeldLocks()...)
 		return nil
